@@ -275,6 +275,8 @@ def template_match(f, template, mode='reflect', cval=0., out=None, output=None):
         ``s0`` and ``s1``).
     '''
     template = template.astype(f.dtype, copy=False)
+    if f.ndim != template.ndim:
+        raise ValueError('mahotas.template_match: `f` and `template` must have the same number of dimensions')
     output = _get_output(f, out, 'template_match', output=output)
     _check_mode(mode, cval, 'template_match')
     return _convolve.template_match(f, template, output, mode2int[mode], 0)
@@ -303,6 +305,8 @@ def find(f, template):
     '''
     if f.ndim != 2:
         raise ValueError('mahotas.find: Cannot handle multi-dimensional images')
+    if template.ndim != 2:
+        raise ValueError('mahotas.find: `template` must be 2-dimensional (like `f`)')
     template = template.astype(f.dtype)
     out = np.empty(f.shape, bool)
     return _convolve.find2d(f, template, out)
